@@ -490,7 +490,9 @@ def check_c08(r, ex, stats):
                 continue
             stats["P2"] += 1
             stats["P4"] += 1
-            if sn[2] != r.itstart + kk:
+            # tag of a snapshot taken during iteration kk+1 from state kk: the count of completed
+            # iterations (today) or the iteration in progress - the statement fixes neither
+            if sn[2] not in (r.itstart + kk, r.itstart + kk + 1):
                 bad("P4", "snapshot %d carries it=%d, expected %d (= %d + %d full steps)" %
                     (k, sn[2], r.itstart + kk, r.itstart, kk), cls + "/snapshot-it")
         elif sn[1] == t0 and sn[0] == r.f_before[0] and k == 0:
@@ -597,7 +599,9 @@ def _check_monitors(r, traj, off, N, stats, bad, prefix_ok):
                     (ent["name"], j, new_t[a], float(traj.states[k].time)), trig + "/time")
                 break
             ev = _model_monitor_value(traj, k, ent)
-            same = (new_v[a] == ev) or (math.isnan(new_v[a]) and math.isnan(ev))
+            # the value of that state, to round-off (another summation order is no defect)
+            same = (new_v[a] == ev) or (math.isnan(new_v[a]) and math.isnan(ev)) or \
+                (math.isfinite(ev) and math.isfinite(new_v[a]) and abs(new_v[a] - ev) <= 1e-9 * max(abs(ev), 1e-300))
             if not same:
                 bad("P5", "monitor '%s' entry it=%d has value %r, state value is %r" %
                     (ent["name"], j, new_v[a], ev), trig + "/value")
